@@ -5,7 +5,7 @@
 
 #define MAXC 64
 static vh_conn conns[MAXC];
-static int used[MAXC], hsdone[MAXC];
+static int used[MAXC], hsdone[MAXC], is889[MAXC];
 static rfbScreenInfoPtr scr;
 
 static int live(int id) {
@@ -30,11 +30,13 @@ int main(void) {
       argv[argc] = NULL;
       rfbProcessArguments(scr, &argc, argv);
       puts("ok");
-    } else if (!strcmp(tok[0], "conn") && n == 3) {
+    } else if ((!strcmp(tok[0], "conn") || !strcmp(tok[0], "conn889")) && n == 3) {
       int id = atoi(tok[1]);
       if (id < 0 || id >= MAXC || used[id]) { puts("bad-op"); continue; }
       used[id] = 1;
-      vh_connect_pre(scr, &conns[id], "RFB 003.008\n", 12);
+      /* "RFB 003.889": the Mac OS X client, which never sends ClientInit (implicit shared flag) */
+      is889[id] = tok[0][4] == '8';
+      vh_connect_pre(scr, &conns[id], is889[id] ? "RFB 003.889\n" : "RFB 003.008\n", 12);
       if (conns[id].cl && atoi(tok[2])) conns[id].cl->reverseConnection = TRUE; /* as rfbReverseConnection does */
       puts("ok");
     } else if (!strcmp(tok[0], "hs") && n == 2) {
@@ -45,7 +47,8 @@ int main(void) {
       vh_send(&conns[id], &one, 1);
       rfbProcessClientMessage(conns[id].cl);
       vh_drain(&conns[id]);
-      puts(conns[id].cl->state == RFB_INITIALISATION ? "ok" : "hs-failed");
+      if (is889[id]) puts("ok");   /* the implicit ClientInit has already been processed */
+      else puts(conns[id].cl->state == RFB_INITIALISATION ? "ok" : "hs-failed");
     } else if (!strcmp(tok[0], "init") && n == 3) {
       int id = atoi(tok[1]); unsigned char sh = (unsigned char)atoi(tok[2]);
       if (!live(id) || !hsdone[id] || conns[id].cl->state != RFB_INITIALISATION) { puts("bad-op"); continue; }
